@@ -319,7 +319,7 @@ class Ctx(object):
                 g = Guard(body, i, cond, [v for v, _ in bad], [v for v, _ in good], [x for _, x in bad], [x for _, x in good], t['span'],
                           self.discr_type(body, t['discr']))
                 d = t['discr']
-                g.cond_ty = body.local_ty(d['place']['l']) if d['k'] in ('copy', 'move') and not d['place']['p'] else None
+                g.cond_ty = (body.local_ty(d['place']['l']) if not d['place']['p'] else d['place'].get('ty')) if d['k'] in ('copy', 'move') else None
                 res.append(g)
         self._guards[key] = res
         return res
